@@ -22,11 +22,12 @@ structure Forest (fs : List (FileInfo α)) : Prop where
   acyclic : ∃ rank : α → Nat, ∀ f ∈ fs, ∀ p, f.parent = some p → rank (norm p) < rank (norm f.cls)
 
 /-- the four hierarchy queries on `t` answer with the declared relation of `fs`
-    (class names up to `norm`, children as sets; member walks for all sufficiently large
-    fuel, i.e. they terminate) -/
+    (class names up to `norm`; subtypes as a set, each class listed once; member walks for
+    all sufficiently large fuel, i.e. they terminate) -/
 structure Correct (fs : List (FileInfo α)) (t : Tree α) : Prop where
   sup : ∀ c, ∃ l, supertypes norm fs t c = some l ∧ l.map norm = (Spec.supers norm fs c).map norm
   sub : ∀ c x, x ∈ (subtypes norm fs t c).map norm ↔ x ∈ (Spec.subs norm fs c).map norm
+  subNodup : ∀ c, ((subtypes norm fs t c).map norm).Nodup
   memUp : ∀ c m, ∃ K, ∀ k, K ≤ k → ∃ l, memberSupertypes norm fs t k c m = .names l ∧
     ∀ d, d ∈ l ↔ Spec.NearestUp norm fs m c d
   memDown : ∀ c m, ∃ K, ∀ k, K ≤ k → ∃ l, memberSubtypes norm fs t k c m = .names l ∧
@@ -77,7 +78,7 @@ theorem correct_of_represents {fs : List (FileInfo α)} {t : Tree α} (h : Fores
   have hk := h.keysInj
   obtain ⟨rank, hrank⟩ := h.acyclic
   obtain ⟨B, hB⟩ := rank_bound (norm := norm) rank fs
-  exact ⟨supertypes_spec hk R, subtypes_spec hk R,
+  exact ⟨supertypes_spec hk R, subtypes_spec hk R, subtypes_nodup R,
     fun c m => memberSupertypes_spec hk R rank hrank c m,
     fun c m => ⟨B + 1, fun k hk' => memberSubtypes_spec hk R rank B hrank hB c m k (by omega)⟩⟩
 
@@ -86,7 +87,7 @@ theorem correct_of_represents {fs : List (FileInfo α)} {t : Tree α} (h : Fores
 /-- **the sequential build is correct**: forest ⇒ queries = declared relation -/
 theorem buildSeq_correct (fs : List (FileInfo α)) (h : Forest norm fs) :
     Correct norm fs (buildSeq norm fs) :=
-  correct_of_represents h (seq_represents h.keysInj)
+  correct_of_represents h (seq_represents h.keysInj h.nodup)
 
 /-! ## the declared relation does not depend on the enumeration order -/
 
@@ -173,7 +174,7 @@ theorem buildSeq_perm (fs fs' : List (FileInfo α)) (h : Forest norm fs) (p : fs
 theorem buildConc_correct (chunks : List (List (FileInfo α))) (sched : List Nat)
     (h : Forest norm chunks.flatten) (hc : Complete true norm chunks sched) :
     Correct norm chunks.flatten (buildConc true norm chunks sched) :=
-  correct_of_represents h (conc_represents chunks sched h.keysInj hc)
+  correct_of_represents h (conc_represents chunks sched h.keysInj h.nodup hc)
 
 /-- **FULL: the concurrent build equals the sequential one**, for every chunking and every
     complete schedule of the atomic steps (false for the pinned two-step get-or-create,
